@@ -237,6 +237,15 @@ int _vnacal_new_solve_auto(vnacal_new_solve_state_t *vnssp,
      */
     equations = vnp->vn_equations;
     assert(x_length == vnp->vn_systems * (vlp->vl_t_terms - 1));
+    for (int sindex = 0; sindex < vnp->vn_systems; ++sindex) {
+	if (vnp->vn_system_vector[sindex].vns_equation_count <
+		vlp->vl_t_terms - 1) {
+	    _vnacal_error(vcp, VNAERR_MATH, "vnacal_new_solve: "
+		    "insufficient number of standards to solve "
+		    "error terms");
+	    return -1;
+	}
+    }
     if (equations + correlated < x_length + p_length) {
 	_vnacal_error(vcp, VNAERR_MATH, "vnacal_new_solve: not enough "
 		"standards given to solve the system");
